@@ -102,6 +102,7 @@ func (m *Conn) Flush() (n int, err error) {
 	n, err = m.socket.Write(m.writer.Bytes())
 	m.writer.Reset()
 	m.Unlock()
+	verifyield.Point("listener.Conn.Flush:unlocked")
 	return
 }
 
